@@ -177,8 +177,14 @@ class Rational(Primitive):
                 result = impl(self._value, right._value)
             except ZeroDivisionError:
                 raise _any.InvalidOperandError("Cannot divide %s by zero" % self._value) from None
-            else:
+            except (OverflowError, ValueError) as ex:  # E.g., power with a non-integer exponent goes through float
+                raise _any.InvalidOperandError("Cannot evaluate: %s" % ex) from None
+            if isinstance(result, complex):  # E.g., a root of a negative number
+                raise _any.InvalidOperandError("The result is not a real number: %r" % result)
+            try:
                 return Rational(result)
+            except (OverflowError, ValueError) as ex:  # Non-finite float
+                raise _any.InvalidOperandError("The result is not a rational number: %s" % ex) from None
         else:
             raise _any.UndefinedOperatorError
 
